@@ -16,7 +16,7 @@ pub fn meta() -> Meta {
     Meta {
         id: "C11",
         level: "model_checking",
-        rule: "(1)+(2) configuration sweep through the real CLI with real thread pools: subcommand in {build, align, map aln, map vcf, distance, lo with reference, lo without} x input kind {.skf, sequence files} where accepted x sample count in {2,9,10,11,19,20,21,29,30,31} (both sides of every step of the 10-samples-per-thread rule; build additionally 69,70,149,150 for split depth 3 and 4) x thread counts (quick: 1,2,3,4,8,16 and all 1..16 at n=10 and 21; thorough: all 1..16) x hash seeds {s, s+1} (thorough 4): exit status 0 whenever the 1-thread run exits 0 and output equal to the 1-thread/seed-s output — byte-exact for map, distance and lo with reference, as a table for build (every sample in its input column), as a column multiset for align, as a column multiset modulo complement for reference-free lo; plus `ska lo -r` under 8 (thorough 24) hash seeds x threads 1,2,4 on (a) a triallelic SNP and (b) a reference with a three-copy repeat and junction SNPs: all outputs identical. (3) schedule exploration of the only racy structure (DashMap neighbour vectors in skalo::build_graph): an explicit-state model enumerates every interleaving of the per-row push operations of W=2,3 workers pulling rows from a shared iterator and collects the set R of reachable final graphs; every element of R is fed through the real identify_good_kmers + build_variant_groups and must give the same, planted result; real multi-threaded build_graph runs must land inside R; 1-thread runs on permuted rows must equal the model's result for that item order. states/transitions are those of the interleaving model; traces_validated = elements of R replayed through the real downstream code + real runs checked for membership.".into(),
+        rule: "(1)+(2) configuration sweep through the real CLI with real thread pools: subcommand in {build, build --proportion-reads 0.5 (two records per file; n in {9,10,21,70}), align, map aln, map vcf, distance, lo with reference, lo without} x input kind {.skf, sequence files} where accepted x sample count in {2,9,10,11,19,20,21,29,30,31} (both sides of every step of the 10-samples-per-thread rule; build additionally 69,70,149,150 for split depth 3 and 4) x thread counts (quick: 1,2,3,4,8,16 and all 1..16 at n=10 and 21; thorough: all 1..16) x hash seeds {s, s+1} (thorough 4): exit status 0 whenever the 1-thread run exits 0 and output equal to the 1-thread/seed-s output — byte-exact for map, distance and lo with reference, as a table for build (every sample in its input column), as a column multiset for align, as a column multiset modulo complement for reference-free lo; plus `ska lo -r` under 8 (thorough 24) hash seeds x threads 1,2,4 on (a) a triallelic SNP and (b) a reference with a three-copy repeat and junction SNPs: all outputs identical. (3) schedule exploration of the only racy structure (DashMap neighbour vectors in skalo::build_graph): an explicit-state model enumerates every interleaving of the per-row push operations of W=2,3 workers pulling rows from a shared iterator and collects the set R of reachable final graphs; every element of R is fed through the real identify_good_kmers + build_variant_groups and must give the same, planted result; real multi-threaded build_graph runs must land inside R; 1-thread runs on permuted rows must equal the model's result for that item order. states/transitions are those of the interleaving model; traces_validated = elements of R replayed through the real downstream code + real runs checked for membership.".into(),
         assumptions: vec![
             "rayon's internal scheduling is not explored; outside skalo there is no shared mutable state (fork-join over disjoint slices, ordered collection), and the sweep would expose a violation of that argument as an output difference".into(),
             "each DashMap entry operation is atomic (the entry guard holds the shard lock for the statement)".into(),
@@ -47,6 +47,8 @@ fn family(n: usize, seed: u64) -> (Vec<u8>, Vec<Vec<Vec<u8>>>) {
 #[derive(Clone, Copy, Debug, PartialEq)]
 enum Cmd {
     Build,
+    /// build with --proportion-reads 0.5 from files of two records each (every second record is skipped)
+    BuildHalf,
     AlignSkf,
     AlignFa,
     MapAlnSkf,
@@ -69,6 +71,17 @@ fn run_cmd(cmd: Cmd, dir: &str, files: &[String], threads: usize, seed: u64) -> 
         Cmd::Build => {
             let _ = std::fs::remove_file(format!("{dir}/b.skf"));
             let mut a = vec!["build", "-k", "17", "-o", "b", "--threads", &ts];
+            a.extend(fa.iter());
+            let o = cli::run(&a, dir, Some(seed));
+            let canon = match FileState::read(&format!("{dir}/b.skf")) {
+                Ok(s) => format!("{:?}", s.table),
+                Err(e) => format!("unreadable: {e}"),
+            };
+            (o.code, canon, tail(&o))
+        }
+        Cmd::BuildHalf => {
+            let _ = std::fs::remove_file(format!("{dir}/b.skf"));
+            let mut a = vec!["build", "-k", "17", "-o", "b", "--proportion-reads", "0.5", "--threads", &ts];
             a.extend(fa.iter());
             let o = cli::run(&a, dir, Some(seed));
             let canon = match FileState::read(&format!("{dir}/b.skf")) {
@@ -134,6 +147,9 @@ pub fn run_sweep(ctx: &Ctx, rep: &mut Report) {
     for n in [69usize, 70, 149, 150] {
         groups.push((Cmd::Build, n));
     }
+    for n in [9usize, 10, 21, 70] {
+        groups.push((Cmd::BuildHalf, n));
+    }
     for (cmd, n) in groups {
         idx += 1;
         if !ctx.mine(idx) {
@@ -149,11 +165,19 @@ pub fn run_sweep(ctx: &Ctx, rep: &mut Report) {
         std::fs::create_dir_all(&dir).unwrap();
         std::fs::write(format!("{dir}/ref.fa"), scratch::fasta_named(&[("chr".into(), g.clone())])).unwrap();
         let mut files = Vec::new();
+        let second = lo::ancestor(200, 17, ctx.seed + 12);
         for (i, s) in samples.iter().enumerate() {
-            std::fs::write(format!("{dir}/s{i}.fa"), scratch::fasta(s)).unwrap();
+            if cmd == Cmd::BuildHalf {
+                // a second record per sample (a sample-specific stretch of another sequence): skipped by the option
+                let mut recs = s.clone();
+                recs.push(second[i % 100..i % 100 + 60].to_vec());
+                std::fs::write(format!("{dir}/s{i}.fa"), scratch::fasta(&recs)).unwrap();
+            } else {
+                std::fs::write(format!("{dir}/s{i}.fa"), scratch::fasta(s)).unwrap();
+            }
             files.push(format!("s{i}.fa"));
         }
-        if !matches!(cmd, Cmd::Build | Cmd::AlignFa | Cmd::MapAlnFa | Cmd::MapVcfFa) {
+        if !matches!(cmd, Cmd::Build | Cmd::BuildHalf | Cmd::AlignFa | Cmd::MapAlnFa | Cmd::MapVcfFa) {
             let mut a = vec!["build", "-k", "17", "-o", "in"];
             a.extend(files.iter().map(|s| s.as_str()));
             if cli::run(&a, &dir, Some(ctx.seed)).code != 0 {
